@@ -142,6 +142,10 @@ def fault_check(rep, rd, tier, seed, shim=None, P=1024):
                 a, b2 = sorted(rng.sample(range(1, n["write"] + 1), 2)) if n["write"] >= 2 else (1, 1)
                 plan.append(("strace2", "write", (a, b2), "EIO"))
 
+        # every plan entry gets a directory of its own named after it: the same entry twice (pairs are drawn with replacement)
+        # would run two processes on one database file
+        plan = list(dict.fromkeys(plan))
+
         def one(pl):
             how, sc, j, arg = pl
             dd = os.path.join(d, "f_%s_%s_%s" % (how, sc, str(j).replace(" ", "")))
